@@ -36,11 +36,19 @@ func flip(x []byte) []byte {
 func mutations() []mutation {
 	return []mutation{
 		{"header:txhash-altered", false, false, func(e *treex.Env, b *types.Block) *types.Block { c := clone(b); c.TxHash = flip(c.TxHash); return c }},
-		{"header:statehash-altered", false, false, func(e *treex.Env, b *types.Block) *types.Block { c := clone(b); c.StateHash = flip(c.StateHash); return c }},
+		{"header:statehash-altered", false, false, func(e *treex.Env, b *types.Block) *types.Block {
+			c := clone(b)
+			c.StateHash = flip(c.StateHash)
+			return c
+		}},
 		{"header:height+1", false, false, func(e *treex.Env, b *types.Block) *types.Block { c := clone(b); c.Height++; return c }},
 		{"header:height-1", false, false, func(e *treex.Env, b *types.Block) *types.Block { c := clone(b); c.Height--; return c }},
 		{"body:last-tx-dropped", false, false, func(e *treex.Env, b *types.Block) *types.Block { c := clone(b); c.Txs = c.Txs[:len(c.Txs)-1]; return c }},
-		{"body:tx-added", false, false, func(e *treex.Env, b *types.Block) *types.Block { c := clone(b); c.Txs = append(c.Txs, e.Tx()); return c }},
+		{"body:tx-added", false, false, func(e *treex.Env, b *types.Block) *types.Block {
+			c := clone(b)
+			c.Txs = append(c.Txs, e.Tx())
+			return c
+		}},
 		{"body:two-txs-swapped", true, false, func(e *treex.Env, b *types.Block) *types.Block {
 			c := clone(b)
 			c.Txs[0], c.Txs[1] = c.Txs[1], c.Txs[0]
@@ -98,7 +106,7 @@ func main() {
 	r := vx.Start("C27", "model_checking")
 	clog.SetLogLevel("crit")
 	r.QuietStderr()
-	r.Rule = "valid block B with 3 transactions x {B extends the tip, B is on a side branch that wins later} x every listed header/body mutation (fields covered by the hash, count-changing and count-preserving body changes, signature and public-key bytes, signature altered while the genuine transaction is in the pool, duplicates with a recomputed transaction root) x {broadcast, sync}; history = [mutated block, (query by hash), genuine B, child of B]; real nodes on in-memory databases. state = (position, mutation, kind, step). distinct = (position, mutation, kind, verdict of the mutated delivery) classes"
+	r.Rule = "valid block B with 3 transactions x {B extends the tip, B is on a side branch that wins later, the mutated block arrives before its parent (orphan pool)} x every listed header/body mutation (fields covered by the hash, count-changing and count-preserving body changes, signature and public-key bytes, signature altered while the genuine transaction is in the pool, duplicates with a recomputed transaction root) x {broadcast, sync}; history = [mutated block, (query by hash), genuine B, child of B]; real nodes on in-memory databases. state = (position, mutation, kind, step). distinct = (position, mutation, kind, verdict of the mutated delivery) classes"
 	r.Assume = []string{"every listed mutation makes the block invalid (none touches a field that validation ignores)", "the rejected block may remain in hash-addressed storage; 'unchanged' is judged on the public answers (best chain, indexes, tip state)"}
 	if r.Fork(8) {
 		r.Floors["executions"] = 40
@@ -112,26 +120,29 @@ func main() {
 	}
 	defer env.P.Close()
 	tip := env.Trunk[treex.TrunkLen]
-	// B: child of the trunk tip with 3 txs; S: lighter sibling; C: child of B
-	var btxs []*types.Transaction
-	for i := 0; i < 3; i++ {
-		btxs = append(btxs, env.Tx())
+	// B: child of the trunk tip with 3 txs; S: lighter sibling; C: child of B (3 txs); D: child of C
+	mk3 := func(parent *types.Block) *types.Block {
+		var txs3 []*types.Transaction
+		for i := 0; i < 3; i++ {
+			txs3 = append(txs3, env.Tx())
+		}
+		b, err := env.MakeWith(parent, txs3, treex.Bits[0], 0)
+		if err != nil {
+			fmt.Println("HARNESS-ERROR", err)
+			r.Finish()
+		}
+		return b
 	}
-	B, err := env.MakeWith(tip, btxs, treex.Bits[0], 0)
-	if err != nil {
-		fmt.Println("HARNESS-ERROR", err)
-		r.Finish()
-	}
+	B := mk3(tip)
 	S, _ := env.Make(tip, 1, treex.Bits[0])
-	C, err := env.Make(B, 1, treex.Bits[0])
+	C := mk3(B)
+	D, err := env.Make(C, 1, treex.Bits[0])
 	if err != nil {
 		fmt.Println("HARNESS-ERROR", err)
 		r.Finish()
 	}
-	all := []*types.Block{B, S, C}
+	all := []*types.Block{B, S, C, D}
 	txs := treex.TxHashes(all)
-	bhash := B.Hash(env.Cfg)
-	// reference views
 	refOf := func(blocks ...*types.Block) vnode.View {
 		n := env.Fresh()
 		for _, b := range blocks {
@@ -144,40 +155,51 @@ func main() {
 		n.Forget()
 		return v
 	}
-	wantB, wantBC := refOf(B), refOf(B, C)
+	// a position = which block is mutated (target), what is delivered before the mutated block, between
+	// the mutated and the genuine block, and after the genuine block; and the reference views after
+	// the genuine block and at the end
+	type position struct {
+		name             string
+		target           *types.Block
+		pre, mid, post   []*types.Block
+		wantMid          vnode.View // after the blocks of mid
+		wantAfterGenuine vnode.View // nil = not compared (the target is on a side branch at that moment)
+		wantEnd          vnode.View
+	}
+	positions := []position{
+		{"tip", B, nil, nil, []*types.Block{C}, nil, refOf(B), refOf(B, C)},
+		{"side-branch", B, []*types.Block{S}, nil, []*types.Block{C}, nil, nil, refOf(B, C)},
+		{"orphan-first", C, nil, []*types.Block{B}, []*types.Block{D}, refOf(B), refOf(B, C), refOf(B, C, D)},
+	}
 	item := 0
-	for _, side := range []bool{false, true} {
+	for _, pos := range positions {
+		T := pos.target
+		thash := T.Hash(env.Cfg)
 		for _, m := range mutations() {
 			for _, kind := range []int{vnode.Broadcast, vnode.Sync} {
 				item++
 				if !r.Mine(item) {
 					continue
 				}
-				pos := "tip"
-				if side {
-					pos = "side-branch"
-				}
-				name := fmt.Sprintf("%s/%s/kind%d", pos, m.name, kind)
-				kase := map[string]interface{}{"position": pos, "mutation": m.name, "kind": kind}
+				name := fmt.Sprintf("%s/%s/kind%d", pos.name, m.name, kind)
+				kase := map[string]interface{}{"position": pos.name, "mutation": m.name, "kind": kind}
 				n := env.Fresh()
-				if side {
-					if err := n.Deliver(kind, S, "peer"); err != nil {
-						r.Note("%s: sibling refused: %v", name, err)
+				for _, b := range pos.pre {
+					if err := n.Deliver(kind, b, "peer"); err != nil {
+						r.Note("%s: %v", name, err)
 					}
 				}
 				if m.needPool {
-					for _, tx := range B.Txs {
-						if _, err := n.API.SendTx(tx); err != nil {
-							r.Note("%s: pool refused a genuine tx: %v", name, err)
-						}
+					for _, tx := range T.Txs {
+						_, _ = n.API.SendTx(tx)
 					}
 				}
 				before := n.Observe(txs)
-				M := m.apply(env, B)
+				M := m.apply(env, T)
 				errM := n.Deliver(kind, M, "badpeer")
 				after := n.Observe(txs)
 				r.Count("executions", 1)
-				r.Count("transitions", 3)
+				r.Count("transitions", int64(3+len(pos.pre)+len(pos.mid)+len(pos.post)))
 				r.Seen("states", name)
 				r.Seen("distinct", fmt.Sprintf("%s verdict=%v", name, errM != nil))
 				r.Note("%s -> mutated block answered: %v; height %s -> %s", name, errM, before["height"], after["height"])
@@ -187,35 +209,53 @@ func main() {
 				if d := after.Diff(before, 5); len(d) > 0 {
 					fail("invalid-block-changed-the-node:"+m.name, fmt.Sprintf("delivering the mutated block (answer: %v) changed the node's answers: %s", errM, strings.Join(d, "; ")))
 				}
-				// the rejected body must not be served under B's hash
-				if m.sameHash {
-					if bd, err := n.Chain.GetBlockByHashes([][]byte{bhash}); err == nil && len(bd.Items) == 1 && bd.Items[0] != nil && bd.Items[0].Block != nil {
-						if !sameTxs(bd.Items[0].Block.Txs, B.Txs) {
-							fail("rejected-body-served-under-the-genuine-hash:"+m.name, "after the rejection a query by B's hash returns the rejected body")
+				served := func(when string) {
+					if !m.sameHash {
+						return
+					}
+					if bd, err := n.Chain.GetBlockByHashes([][]byte{thash}); err == nil && len(bd.Items) == 1 && bd.Items[0] != nil && bd.Items[0].Block != nil {
+						if !sameTxs(bd.Items[0].Block.Txs, T.Txs) {
+							fail("rejected-body-served-under-the-genuine-hash:"+m.name, when+" a query by the genuine block's hash returns the rejected body")
 						}
 					}
 				}
-				// the genuine block must still be accepted
-				errB := n.Deliver(kind, B, "peer")
-				if errB != nil {
-					fail("genuine-block-refused-after-tampered-twin:"+m.name, fmt.Sprintf("the genuine block is answered %v after the mutated block (answered %v)", errB, errM))
+				served("after the mutated block")
+				// blocks that arrive between the mutated and the genuine block (the missing parent)
+				for _, b := range pos.mid {
+					if err := n.Deliver(kind, b, "peer"); err != nil {
+						// the answer to the valid parent carries the error of the parked child (ProcessOrphans);
+						// the statement is about the node's state, so only that is judged below
+						r.Seen("distinct", "valid parent answered with the parked child's error: "+err.Error())
+					}
+				}
+				if len(pos.mid) > 0 {
+					served("after the parent arrived (the parked block was processed)")
+					gotMid := n.Observe(txs)
+					if d := gotMid.Diff(pos.wantMid, 5); len(d) > 0 {
+						fail("node-differs-after-parent-of-parked-block:"+m.name, "after the genuine parent arrived (and the parked mutated block was processed) the node differs from a node that only received the parent: "+strings.Join(d, "; "))
+					}
+				}
+				errT := n.Deliver(kind, T, "peer")
+				if errT != nil {
+					fail("genuine-block-refused-after-tampered-twin:"+m.name, fmt.Sprintf("the genuine block is answered %v after the mutated block (answered %v)", errT, errM))
 					n.Close()
 					n.Forget()
 					continue
 				}
-				if !side {
+				if pos.wantAfterGenuine != nil {
 					got := n.Observe(txs)
-					if d := got.Diff(wantB, 5); len(d) > 0 {
-						fail("node-differs-after-genuine-block:"+m.name, "after the genuine block the node differs from a node that only received it: "+strings.Join(d, "; "))
+					if d := got.Diff(pos.wantAfterGenuine, 5); len(d) > 0 {
+						fail("node-differs-after-genuine-block:"+m.name, "after the genuine block the node differs from a node that only received the genuine blocks: "+strings.Join(d, "; "))
 					}
 				}
-				if err := n.Deliver(kind, C, "peer"); err != nil {
-					fail("child-refused:"+m.name, fmt.Sprintf("the child of the genuine block is answered %v", err))
-				} else {
-					got := n.Observe(txs)
-					if d := got.Diff(wantBC, 5); len(d) > 0 {
-						fail("node-differs-after-child:"+m.name, "after B's child (reorganisation re-loads B by hash) the node differs from the reference: "+strings.Join(d, "; "))
+				for _, b := range pos.post {
+					if err := n.Deliver(kind, b, "peer"); err != nil {
+						fail("child-refused:"+m.name, fmt.Sprintf("the child of the genuine block is answered %v", err))
 					}
+				}
+				got := n.Observe(txs)
+				if d := got.Diff(pos.wantEnd, 5); len(d) > 0 {
+					fail("node-differs-at-the-end:"+m.name, "after the child (reorganisation re-loads the block by hash) the node differs from the reference: "+strings.Join(d, "; "))
 				}
 				n.Close()
 				n.Forget()
